@@ -263,6 +263,15 @@ def gen_cons_leaf(rng, tier, cls=None, n=None):
   if cls == 'ADevice' and rng.random() < 0.8:
     d['ucons'] = gen_ucons(rng, n, lb, hb)
     tag['ucons'] = len(d['ucons'])
+  if cls in ('Device', 'PVDevice', 'ADevice', 'SDevice', 'GDevice') and rng.random() < 0.12:
+    # the exported list must describe the cumulative bounds the device reports NOW: build with OTHER cumulative bounds (a
+    # whole-horizon pair when the case has none, none when the case has some), read .constraints, then assign the case's own
+    # through the public setter (None included)
+    lo, hi = sum((F(x) for x in lb), F(0)), sum((F(x) for x in hb), F(0))
+    if d['cbs']:
+      d['_py']['cb_reread'] = 'none'; tag['cb_reread'] = 'none->some'
+    elif lo < hi:
+      d['_py']['cb_reread'] = [fs(lo + (hi - lo)/4), fs(hi - (hi - lo)/4)]; tag['cb_reread'] = 'some->none'      # tighter than the box: box vertices violate it
   return d, tag
 
 
@@ -368,6 +377,15 @@ def build_dev(d, id='dev'):
   (unmodelled) WindowDevice, and a storage device one of whose parameters was set through its setter AFTER a first read of
   `.constraints` (the exported list must describe the device as it is now)."""
   py = d.get('_py', {})
+  if py.get('cb_reread') and d['cls'] != 'WindowDevice':
+    alt = py['cb_reread']
+    d2 = dict(d); d2['_py'] = {k: v for k, v in py.items() if k not in ('cb_reread', 'crows', 'ccont', 'cform')}
+    d2['cbs'] = [] if alt == 'none' else [[alt[0], alt[1], 0, d['n']]]
+    d2['_py']['cform'] = None if alt == 'none' else 'one4'
+    dev = build_dev(d2, id)
+    _ = dev.constraints
+    dev.cbounds = py_cbounds(d)
+    return dev
   from .common import repo
   dk = repo()
   if d['cls'] == 'WindowDevice':
